@@ -146,6 +146,8 @@ Definition apply_fn (f : fn) (value : val) (args : list val) (kwargs : list (str
 
 Definition zlen {A} (l : list A) : Z := Z.of_nat (List.length l).
 
+Definition is_stop {A} (o : outcome A) : bool := match o with Stop => true | _ => false end.
+
 (** a literal Python list of plain values, as a value *)
 Fixpoint plain_items (l : list arg) : option (list val) :=
   match l with
@@ -257,26 +259,28 @@ Section Engine.
               end
           | _ => (oa, PAnd a' b)
           end
-      | PArrayIndex list index =>
+      | PArrayIndex list index exhausted =>
           (* list = Pattern.value(self.list); index = Pattern.value(self.index) *)
+          if exhausted then (Stop, p) else                       (* if self.exhausted: raise StopIteration *)
+          let '(o, list1, index1) :=
           match list with
           | AL l =>
               let '(oi, index') := value f index in
               match oi with
-              | Yield VNone => (Yield VNone, PArrayIndex list index')
+              | Yield VNone => (Yield VNone, list, index')
               | Yield vi =>
                   match py_int vi with
                   | Yield (VInt i) =>
                       match py_index l i with
-                      | None => (Raise IndexError, PArrayIndex list index')
+                      | None => (Raise IndexError, list, index')
                       | Some a =>
                           let '(o, a') := value f a in      (* return Pattern.value(list[index]) *)
-                          (o, PArrayIndex (AL (update_nth (py_index_pos l i) a' l)) index')
+                          (o, (AL (update_nth (py_index_pos l i) a' l)), index')
                       end
-                  | Yield _ => (Inexact, PArrayIndex list index')
-                  | o => (o, PArrayIndex list index')
+                  | Yield _ => (Inexact, list, index')
+                  | o => (o, list, index')
                   end
-              | _ => (oi, PArrayIndex list index')
+              | _ => (oi, list, index')
               end
           | _ =>
               let '(ol, list') := value f list in
@@ -284,27 +288,28 @@ Section Engine.
               | Yield vl =>
                   let '(oi, index') := value f index in
                   match oi with
-                  | Yield VNone => (Yield VNone, PArrayIndex list' index')
+                  | Yield VNone => (Yield VNone, list', index')
                   | Yield vi =>
                       match py_int vi with
                       | Yield (VInt i) =>
                           match vl with
                           | VList l | VTup l =>
                               match py_index l i with
-                              | None => (Raise IndexError, PArrayIndex list' index')
-                              | Some v => (Yield v, PArrayIndex list' index')
+                              | None => (Raise IndexError, list', index')
+                              | Some v => (Yield v, list', index')
                               end
-                          | VStr _ | VDict _ => (Inexact, PArrayIndex list' index')
-                          | _ => (Raise TypeError, PArrayIndex list' index')
+                          | VStr _ | VDict _ => (Inexact, list', index')
+                          | _ => (Raise TypeError, list', index')
                           end
-                      | Yield _ => (Inexact, PArrayIndex list' index')
-                      | o => (o, PArrayIndex list' index')
+                      | Yield _ => (Inexact, list', index')
+                      | o => (o, list', index')
                       end
-                  | _ => (oi, PArrayIndex list' index')
+                  | _ => (oi, list', index')
                   end
-              | _ => (ol, PArrayIndex list' index)
+              | _ => (ol, list', index)
               end
-          end
+          end in
+          (o, PArrayIndex list1 index1 (is_stop o))             (* except StopIteration: self.exhausted = True; raise *)
       | PDict dict =>
           (* rv = dict([(k, Pattern.value(vdict[k])) for k in vdict]) *)
           match dict with
@@ -774,7 +779,7 @@ Section Engine.
       | PInt input => fld input (fun x => Yield (PInt x))
       | PBinOp o a b => fld a (fun a' => fld b (fun b' => Yield (PBinOp o a' b')))
       | PAnd a b => fld a (fun a' => fld b (fun b' => Yield (PAnd a' b')))
-      | PArrayIndex list index => fld list (fun l' => fld index (fun i' => Yield (PArrayIndex l' i')))
+      | PArrayIndex list index _ => fld list (fun l' => fld index (fun i' => Yield (PArrayIndex l' i' false)))   (* super().reset(); self.exhausted = False *)
       | PDict dict => fld dict (fun d' => Yield (PDict d'))
       | PDictKey dict key => fld dict (fun d' => fld key (fun k' => Yield (PDictKey d' k')))
       | PSequence sequence repeats _ _ =>                                                  (* super().reset(); rcount = 0; pos = 0 *)
@@ -857,7 +862,7 @@ Section Engine.
     | CInt, [a] => Yield (PInt a)
     | CBinOp o, [a; b] => Yield (PBinOp o a b)
     | CAnd, [a; b] => Yield (PAnd a b)
-    | CArrayIndex, [l; i] => Yield (PArrayIndex l i)
+    | CArrayIndex, [l; i] => Yield (PArrayIndex l i false)
     | CDict, [AD kv] =>
         (* self.dict = dict([(k, Pattern.pattern(v)) for k, v in value.items()]) *)
         omap (fun kv' => PDict (AD kv')) (kwmapM patternify kv)
